@@ -315,7 +315,8 @@ _ENGINES = {}
 
 
 def _worker(args):
-    factory_mod, factory_name, entry_idx, inv, tier = args
+    factory_mod, factory_name, entry_idx, inv, tier = args[:5]
+    prefix = args[5] if len(args) > 5 else []
     import importlib
     t0 = time.time()
     try:
@@ -324,16 +325,23 @@ def _worker(args):
             _ENGINES[key] = getattr(importlib.import_module(factory_mod), factory_name)()
         eng = _ENGINES[key]
         entry = eng.entries[entry_idx]
-        return explore_entry(eng, entry, inv, tier, t0)
+        return explore_entry(eng, entry, inv, tier, t0, prefix)
     except Exception:
         return {"entry": entry_idx, "crash": traceback.format_exc(), "violated": {}, "obligations": [], "paths": 0,
-                "wall": time.time() - t0, "cuts": []}
+                "wall": time.time() - t0, "cuts": [], "leftover": [], "idx": entry_idx}
 
 
-def explore_entry(eng, entry, inv, tier, t0):
+UNIT_PATHS = 12
+
+
+def explore_entry(eng, entry, inv, tier, t0, prefix=(), limit=None):
+    """explores the subtree of decision prefix `prefix`; after `limit` paths the unexplored
+    alternatives are handed back (`leftover`) so that other processes can take them"""
     from .contract import explore
     timeout = 10000 if tier == "quick" else 60000
-    work = [[]]
+    limit = limit or UNIT_PATHS
+    work = [list(prefix)]
+    leftover = []
     violated_all = {}
     obs = {}
     npaths = 0
@@ -379,12 +387,12 @@ def explore_entry(eng, entry, inv, tier, t0):
                 cur["backend"] = r.backend
             if r.status == "failed" and len(cur["failures"]) < 8:
                 cur["failures"].append({"cex": cti, "detail": {"entry": entry.name, "decisions": list(ctx.decisions)}})
-        if npaths > 20000:
-            oos.append("path limit")
+        if npaths >= limit and work:
+            leftover = work
             break
-    return {"entry": entry.name, "violated": {c: sorted(ks) for c, ks in violated_all.items()},
+    return {"entry": entry.name, "leftover": leftover, "violated": {c: sorted(ks) for c, ks in violated_all.items()},
             "obligations": list(obs.values()), "paths": npaths, "wall": round(time.time() - t0, 2),
-            "oos": sorted(set(oos))[:5], "crash": None, "cuts": sorted(cuts)}
+            "oos": sorted(set(oos))[:5], "crash": None, "cuts": sorted(cuts), "idx": eng.entries.index(entry)}
 
 
 def cti_of(eng, ctx, model, entry):
@@ -461,15 +469,23 @@ def run_engine(factory_mod, factory_name, tier="quick", jobs=16, max_rounds=40, 
         rounds += 1
         t1 = time.time()
         # a cut point seen for the first time starts from the whole template
-        work = [(factory_mod, factory_name, i, {c: ks for c, ks in inv.items()}, tier) for i in range(len(eng.entries))]
-        # unknown cuts get the universe inside the worker via the special key
-        for w in work:
-            w[3]["*"] = universe
-        if jobs == 1:
-            results = [_worker(w) for w in work]
-        else:
-            with ctxm.Pool(min(jobs, len(work))) as pool:
-                results = pool.map(_worker, work, chunksize=1)
+        inv_w = {c: ks for c, ks in inv.items()}
+        inv_w["*"] = universe      # a cut point seen for the first time starts from the whole template
+        units = [(factory_mod, factory_name, i, inv_w, tier, []) for i in range(len(eng.entries))]
+        results = []
+        pool = None if jobs == 1 else ctxm.Pool(jobs)
+        try:
+            while units:
+                if pool is None:
+                    part = [_worker(w) for w in units]
+                else:
+                    part = pool.map(_worker, units, chunksize=1)
+                results += part
+                units = [(factory_mod, factory_name, r["idx"], inv_w, tier, p) for r in part for p in r.get("leftover", [])]
+        finally:
+            if pool is not None:
+                pool.close()
+                pool.join()
         crashed = [r for r in results if r.get("crash")]
         if crashed:
             return {"error": crashed[0]["crash"], "results": results, "inv": inv, "rounds": rounds}
@@ -489,6 +505,8 @@ def run_engine(factory_mod, factory_name, tier="quick", jobs=16, max_rounds=40, 
         npaths = sum(r["paths"] for r in results)
         log(f"[{eng.name}] round {rounds}: paths={npaths} removed={removed} entry_clauses={len(inv['entry'])} "
             f"cuts={len(inv)} ({time.time()-t1:.1f}s)")
+        if getattr(eng, "cache_file", None) and infer:
+            save_inv(eng.cache_file + ".partial", inv, {"rounds": rounds, "inductive": removed == 0})
         if removed == 0 or rounds >= max_rounds:
             break
     return {"error": None, "results": results, "inv": inv, "rounds": rounds, "universe": len(universe),
